@@ -105,6 +105,12 @@ def project_list(tier):
                     "outputs", {"resources": "cpu:1,q:1"}))
         out.append((f"lostout:hold:j{nj}", ("f_hold", {"nesting": 2, "v": 2}),
                     {"njob": nj, "resources": None}, ("f_hold", {"nesting": 2, "v": 1}), "outputs"))
+    # the plan died inside its hold block in the first build (the steps declared there are detached,
+    # pending, without hash); the second build runs the repaired plan
+    for nj in (2, 3, 4):
+        for nesting in (1, 2):
+            out.append((f"holddied:n{nesting}j{nj}", ("f_hold", {"nesting": nesting, "fail": 0, "v": 2}),
+                        {"njob": nj, "resources": None}, ("f_hold", {"nesting": nesting, "fail": 1, "v": 1})))
     # a held step with a stored hash: first build v=1 without hold semantics mattering,
     # then the plan changes (v=2) and reruns with the same step definitions under hold
     for nj in (2, 3):
